@@ -9,8 +9,9 @@ clock; vmon.models.loop_contract judges the history clause by clause.
   callback, plus random programs.  Fully deterministic.
 * all six loops under the REAL clock, in worker subprocesses (one per loop per shard; a fresh
   reactor / asyncio loop / IOLoop per program).  Verdicts use only the recorded event order and
-  the loop's own clock; a violation found under the real clock is re-executed and only reported
-  when it reproduces.  A worker watchdog is INCONCLUSIVE.
+  the loop's own clock ("quiescent" = the loop entered its OS wait primitive asking for >= 10 ms,
+  recorded by a pass-through wrapper; wait durations are never used); a violation found under the
+  real clock is re-executed and only reported when it reproduces.  A worker watchdog is INCONCLUSIVE.
 """
 
 from __future__ import annotations
@@ -68,10 +69,14 @@ RULE = (
 ASSUMES = [
     "due time of an alarm = loop clock read just before alarm() + seconds; 'not before due' tolerates 1e-4 s on real clocks (0.5 us virtual)",
     "alarm order is judged only for alarms whose due times differ by > 0.5 ms (real) / > 0.5 us (virtual), within one run() segment",
-    "'goes quiescent' = the loop blocks in the OS (virtual: fake selector advances the clock; real: inferred when the next alarm/watch "
-    "callback is an alarm due >= 50 ms after the previous callback returned)",
-    "a real-clock violation is reported only if it reproduces when the same program is executed again "
-    "(2 of 2 re-runs for gap-based clauses, 1 of 2 otherwise)",
+    "'goes quiescent' = the loop enters its OS wait primitive (recorded by a pass-through wrapper on selector.select / zmq poll / "
+    "reactor.doIteration / a trio Instrument; virtual: the fake selector advances the clock) with a requested timeout >= 10 ms or none; "
+    "the duration of a wait is never used, so host scheduling stalls cannot produce verdicts; Twisted's 1/256 s idle emulation stays below the threshold",
+    "watch-served under the real clock needs two consecutive quiescent waits that both begin with the watched descriptor readable and no call of its "
+    "callback in between (every program ends with two long waits: sentinel alarm S, then the exit alarm X)",
+    "'loop continues after an exception' = a quiescent wait after the raising callback followed by another alarm/watch callback",
+    "a real-clock violation is reported only if it reproduces in at least one of two re-executions of the same program "
+    "(until the signature has reproduced 3 times in that worker)",
     "return values of remove_watch_file / remove_enter_idle and of remove_alarm after the alarm ran are counted as observations, "
     "not judged (the statement only fixes them for a pending alarm)",
     "callbacks that still run in the same dispatch batch after another callback raised are observations; only the "
@@ -81,10 +86,9 @@ ASSUMES = [
 ]
 
 CFG = {
-    "virtual": {"eps_due": 5e-7, "res_order": 5e-7, "gap": 0.05},
-    "real": {"eps_due": 1e-4, "res_order": 5e-4, "gap": 0.05},
+    "virtual": {"eps_due": 5e-7, "res_order": 5e-7, "qwait": 0.010},
+    "real": {"eps_due": 1e-4, "res_order": 5e-4, "qwait": 0.010},
 }
-GAP_CLAUSE_DETAILS = ("idle-before-quiescent", "watch-served", "swallowed")
 
 
 def sig_of(loop, v):
@@ -95,7 +99,7 @@ def judge(prog, hist):
     from vmon.models import loop_contract
 
     c = CFG[prog["mode"]]
-    return loop_contract.check(hist, prog["mode"], c["eps_due"], c["res_order"], c["gap"])
+    return loop_contract.check(hist, prog["mode"], c["eps_due"], c["res_order"], c["qwait"])
 
 
 def run_once(prog):
@@ -176,14 +180,13 @@ def handle_violations(tally, prog, res, hist, confirm_runs):
     for sig, v in sigs.items():
         if confirm_runs and tally.confirmed.get(sig, 0) < 3:
             # real clock: re-execute; once a signature has reproduced 3 times in this process it is taken as deterministic
-            need_all = any(x in sig for x in GAP_CLAUSE_DETAILS)
             hits = 0
             for _ in range(confirm_runs):
                 r2, _h2 = run_once(prog)
                 if any(sig_of(lp, x) == sig for x in r2.violations):
                     hits += 1
             tally.count("real_violation_reruns", confirm_runs)
-            if hits < (confirm_runs if need_all else 1):
+            if hits < 1:
                 tally.count("real_violation_not_reproduced")
                 tally.count(f"not_reproduced:{lp}:{v['clause']}")
                 continue
